@@ -33,7 +33,7 @@ import terms
 
 PID = "C09"
 PROPS = ["PfModel.Props.C09", "PfModel.Props.C09Outcome", "PfModel.Props.C09Fail", "PfModel.Props.C09Policies", "PfModel.Props.C09Keys",
-         "PfModel.Props.C09MapHist", "PfModel.Props.C09Stable"]
+         "PfModel.Props.C09MapHist", "PfModel.Props.C09Stable", "PfModel.Props.C09Stages"]
 DRIVER = "C09"
 RULE = ("random DAGs of 1-4 term-building functions (tuple outputs, shared roots, defaults, bound values, renames) x EVERY subset of "
         "cached functions x {simple, lru, hybrid, disk} x histories of 2-6 steps: calls (random output, random listed argument "
